@@ -44,11 +44,14 @@ def analyze_source(repo, module, source, qual='<reference>'):
     # nested defs of the reference (analysed with the enclosing environment)
     from .model import _nested_defs
     fa.nested_analyses = {}
+    seen = {}
     for sub in _nested_defs(node):
-        q2 = qual + '.<locals>.' + sub.name
+        seen[sub.name] = seen.get(sub.name, 0) + 1
+        nm = sub.name if seen[sub.name] == 1 else f'{sub.name}#{seen[sub.name]}'
+        q2 = qual + '.<locals>.' + nm
         fi2 = FuncInfo(q2, sub, repo.module(module), parent=fi)
         closure = {k: v for k, v in fa.closures.get(q2, fa.env).items() if isinstance(k, str)}
-        fa.nested_analyses[sub.name] = FuncAnalysis(repo, fi2, closure=closure, versioned=True)
+        fa.nested_analyses[nm] = FuncAnalysis(repo, fi2, closure=closure, versioned=True)
     return fa
 
 
@@ -59,6 +62,23 @@ def sibling_renames(parent_fa, ref_parent):
     for (an, aq), (rn, rq) in zip(parent_fa.nested.items(), ref_parent.nested.items()):
         out[('fn', aq)] = ('fn', rq)
     return out
+
+
+def _versioned(ctx, fi):
+    """Versioned re-evaluation of a repository function; a nested function gets the
+    closure of its (versioned) parent at the point of definition."""
+    cache = ctx.__dict__.setdefault('_vcache', {})
+    if fi.qualname in cache:
+        return cache[fi.qualname]
+    closure = None
+    if fi.parent is not None:
+        pa = _versioned(ctx, fi.parent)
+        closure = dict(pa.closure)
+        closure.update(pa.closures.get(fi.qualname, pa.env))
+        closure = {k: v for k, v in closure.items() if isinstance(k, str)}
+    fa = FuncAnalysis(ctx.repo, fi, closure=closure, versioned=True)
+    cache[fi.qualname] = fa
+    return fa
 
 
 def _is_logging(t):
@@ -162,7 +182,7 @@ def compare(ctx, rule, fa, ref_source, module=None, known=(), ignore=None, why='
     module = module or fa.module.name
     # re-evaluate the function with mutation versioning so that the comparison is
     # sensitive to the order of in-place updates relative to reads
-    fa = FuncAnalysis(ctx.repo, fa.fi, closure=fa.closure, versioned=True)
+    fa = _versioned(ctx, fa.fi)
     ref = ref_fa if ref_fa is not None else analyze_source(ctx.repo, module, ref_source)
     rename = dict(extra_rename or {})
     rename[('fn', fa.fi.qualname)] = ('fn', ref.fi.qualname)       # self reference (recursion)
